@@ -4,37 +4,27 @@
  *   primal / ray / reduced-cost vectors, both LPs and the basis, and the row's basis status taken from the slack column with
  *   ON_LOWER <-> ON_UPPER swapped (bounds are negated) unless the row itself is basic.
  * gi is a ghost slack index, gj a ghost original column: the clauses hold for every slack column and every original column.
- * BOUNDED stand-in: the three loops over the slack columns are unwound completely for at most CAP slack columns. */
+ * The three loops over the slack columns carry loop contracts (unit.json): any number of slack columns up to the array cap CAP. */
 #include "verif_c.h"
 #include "ue_ghost.h"
 
 int g_norig, g_nslack, g_slackrow[CAP], g_pf, g_ray, g_df, g_hasbasis;
-long long g_slacks[NR], g_primal[NC], g_lower[NC], g_upper[NC], g_lhs[NR], g_rhs[NR];
+ue_rat g_slacks[NR], g_primal[NC], g_lower[NC], g_upper[NC], g_lhs[NR], g_rhs[NR];
 int g_dim_primal, g_dim_ray, g_dim_redcost;
 int g_rowstat[NR], g_colstat[NC], g_ncolstat, g_rowtype[NR], g_coltype[NC], g_ncoltype;
 int g_luclear, g_rm_rat, g_rm_real, g_rm_a, g_rm_b, g_bad;
 int E_ON_UPPER, E_ON_LOWER, E_FIXED, E_ZERO, E_BASIC;
 int gi, gj;
-long long o_slack, o_s, o_xj, o_lhs, o_rhs, o_up, o_lo;
+ue_rat o_slack, o_s, o_xj, o_lhs, o_rhs, o_up, o_lo;
 int o_rowstat, o_colstat, o_coltype, o_dimp;
 
 #define ROW g_slackrow[gi]
 #define COL (g_norig + gi)
-#define BIG 1000000000000LL
-#define INR(x) (-BIG <= (x) && (x) <= BIG)
-#define ALLIN (INR(g_upper[0]) && INR(g_upper[1]) && INR(g_upper[2]) && INR(g_upper[3]) && INR(g_upper[4]) && INR(g_lower[0]) && INR(g_lower[1]) && INR(g_lower[2]) && INR(g_lower[3]) && INR(g_lower[4]) \
-   && 0 <= g_coltype[0] && g_coltype[0] <= 10 && 0 <= g_coltype[1] && g_coltype[1] <= 10 && 0 <= g_coltype[2] && g_coltype[2] <= 10 && 0 <= g_coltype[3] && g_coltype[3] <= 10 && 0 <= g_coltype[4] && g_coltype[4] <= 10)
-#define DISTINCT ((g_nslack < 2 || g_slackrow[0] != g_slackrow[1]) && (g_nslack < 3 || (g_slackrow[0] != g_slackrow[2] && g_slackrow[1] != g_slackrow[2])))
-
 void w_untransformEquality(void)
-__CPROVER_requires(0 <= g_norig && g_norig <= 2 && 1 <= g_nslack && g_nslack <= CAP && CAP == 3)
+__CPROVER_requires(0 <= g_norig && g_norig <= 2 && 0 <= g_nslack && g_nslack <= CAP)
 __CPROVER_requires(0 <= gi && gi < g_nslack && 0 <= gj && gj < NC)
-__CPROVER_requires(0 <= g_slackrow[0] && g_slackrow[0] < NR && 0 <= g_slackrow[1] && g_slackrow[1] < NR && 0 <= g_slackrow[CAP - 1] && g_slackrow[CAP - 1] < NR)
-__CPROVER_requires(DISTINCT)   /* _transformEquality adds at most one slack column per row */
+__CPROVER_requires(0 <= g_slackrow[gi] && g_slackrow[gi] < NR)   /* for the other slack columns: instantiated in the stub colVector() */
 __CPROVER_requires(g_dim_primal == g_norig + g_nslack && g_ncolstat == g_norig + g_nslack && g_ncoltype == g_norig + g_nslack)
-__CPROVER_requires(INR(g_slacks[0]) && INR(g_slacks[1]) && INR(g_slacks[2]) && INR(g_slacks[3]))
-__CPROVER_requires(INR(g_primal[0]) && INR(g_primal[1]) && INR(g_primal[2]) && INR(g_primal[3]) && INR(g_primal[NC - 1]))
-__CPROVER_requires(ALLIN && NC == 5)
 __CPROVER_requires(g_luclear == 0 && g_rm_rat == 0 && g_rm_real == 0 && g_bad == 0)
 __CPROVER_requires(o_slack == g_slacks[ROW] && o_s == g_primal[COL] && o_xj == g_primal[gj] && o_lhs == g_lhs[ROW] && o_rhs == g_rhs[ROW])
 __CPROVER_requires(o_up == g_upper[COL] && o_lo == g_lower[COL] && o_rowstat == g_rowstat[ROW] && o_colstat == g_colstat[COL] && o_coltype == g_coltype[COL])
@@ -45,18 +35,18 @@ __CPROVER_assigns(E_ON_UPPER, E_ON_LOWER, E_FIXED, E_ZERO, E_BASIC, g_bad, g_luc
                   __CPROVER_object_whole(g_rowstat), __CPROVER_object_whole(g_rowtype))
 __CPROVER_ensures(g_bad == 0)
 /* primal side */
-__CPROVER_ensures(g_pf ==> (g_slacks[ROW] == o_slack - o_s && g_dim_primal == g_norig))
+__CPROVER_ensures(g_pf ==> (g_slacks[ROW] == (ue_rat)(o_slack - o_s) && g_dim_primal == g_norig))
 __CPROVER_ensures(!g_pf ==> (g_slacks[ROW] == o_slack && g_dim_primal == o_dimp))
 __CPROVER_ensures(gj < g_norig ==> g_primal[gj] == o_xj)
 __CPROVER_ensures(g_ray ==> g_dim_ray == g_norig)
 __CPROVER_ensures(g_df ==> g_dim_redcost == g_norig)
 /* sides and types */
-__CPROVER_ensures(g_lhs[ROW] == (o_up != 0 ? -o_up : o_lhs) && g_rhs[ROW] == (o_lo != 0 ? -o_lo : o_rhs))
-__CPROVER_ensures(g_rowtype[ROW] == 100 - o_coltype && g_ncoltype == g_norig)
+__CPROVER_ensures(g_lhs[ROW] == (o_up != 0 ? (ue_rat)(0 - o_up) : o_lhs) && g_rhs[ROW] == (o_lo != 0 ? (ue_rat)(0 - o_lo) : o_rhs))
+__CPROVER_ensures(g_rowtype[ROW] == (o_coltype ^ 0x55) && g_ncoltype == g_norig)
 /* both LPs lose exactly the slack columns */
 __CPROVER_ensures(g_rm_rat == 1 && g_rm_real == 1 && g_rm_a == g_norig && g_rm_b == g_norig + g_nslack - 1)
 /* basis */
-__CPROVER_ensures(g_hasbasis ==> (g_ncolstat == g_norig && g_luclear == 1))
+__CPROVER_ensures(g_hasbasis ==> (g_ncolstat == g_norig && g_luclear == 1))   /* nslack >= 1 here since gi exists */
 __CPROVER_ensures((g_hasbasis && o_rowstat == E_BASIC) ==> g_rowstat[ROW] == E_BASIC)
 __CPROVER_ensures((g_hasbasis && o_rowstat != E_BASIC) ==> g_rowstat[ROW] == (o_colstat == E_ON_LOWER ? E_ON_UPPER : o_colstat == E_ON_UPPER ? E_ON_LOWER : o_colstat))
 __CPROVER_ensures(!g_hasbasis ==> (g_rowstat[ROW] == o_rowstat && g_luclear == 0))
@@ -69,14 +59,10 @@ void h_untransformEquality(void)
    __CPROVER_havoc_object(g_rowtype); __CPROVER_havoc_object(g_coltype); __CPROVER_havoc_object(g_slackrow);
    g_norig = nondet_int(); g_nslack = nondet_int(); g_pf = nondet_int(); g_ray = nondet_int(); g_df = nondet_int(); g_hasbasis = nondet_int();
    gi = nondet_int(); gj = nondet_int();
-   __CPROVER_assume(0 <= g_norig && g_norig <= 2 && 1 <= g_nslack && g_nslack <= CAP && 0 <= gi && gi < g_nslack && 0 <= gj && gj < NC);
-   __CPROVER_assume(0 <= g_slackrow[0] && g_slackrow[0] < NR && 0 <= g_slackrow[1] && g_slackrow[1] < NR && 0 <= g_slackrow[CAP - 1] && g_slackrow[CAP - 1] < NR);
-   __CPROVER_assume(DISTINCT);
+   __CPROVER_assume(0 <= g_norig && g_norig <= 2 && 0 <= g_nslack && g_nslack <= CAP && 0 <= gi && gi < g_nslack && 0 <= gj && gj < NC);
+   __CPROVER_assume(0 <= g_slackrow[gi] && g_slackrow[gi] < NR);
    g_dim_primal = g_norig + g_nslack; g_ncolstat = g_dim_primal; g_ncoltype = g_dim_primal;
    g_dim_ray = nondet_int(); g_dim_redcost = nondet_int();
-   __CPROVER_assume(INR(g_slacks[0]) && INR(g_slacks[1]) && INR(g_slacks[2]) && INR(g_slacks[3]));
-   __CPROVER_assume(INR(g_primal[0]) && INR(g_primal[1]) && INR(g_primal[2]) && INR(g_primal[3]) && INR(g_primal[NC - 1]));
-   __CPROVER_assume(ALLIN);
    g_luclear = 0; g_rm_rat = 0; g_rm_real = 0; g_bad = 0;
    o_slack = g_slacks[ROW]; o_s = g_primal[COL]; o_xj = g_primal[gj]; o_lhs = g_lhs[ROW]; o_rhs = g_rhs[ROW];
    o_up = g_upper[COL]; o_lo = g_lower[COL]; o_rowstat = g_rowstat[ROW]; o_colstat = g_colstat[COL]; o_coltype = g_coltype[COL];
